@@ -124,6 +124,11 @@ def lit_from_py(v):
     raise ValueError(v)
 
 
+def ci(x):
+    """integers the rules grammar can spell: -(2^63 - 1) .. 2^63 - 1"""
+    return max(-9223372036854775807, min(9223372036854775807, x))
+
+
 def gen_literal(rng, near=None):
     """a literal; when `near` (a python value) is given, mostly equal or close to it"""
     if near is not None or rng.random() < 0.3:
@@ -134,12 +139,12 @@ def gen_literal(rng, near=None):
             if r < 0.45:
                 return ('int', near)
             if r < 0.7:
-                return ('int', near + rng.choice([-1, 1]))
+                return ('int', ci(near + rng.choice([-1, 1])))
             if r < 0.8:
-                return ('range_int', near - rng.choice([0, 1, 5]), near + rng.choice([0, 1, 5]),
+                return ('range_int', ci(near - rng.choice([0, 1, 5])), ci(near + rng.choice([0, 1, 5])),
                         rng.choice('(['), rng.choice(')]'))
             if r < 0.9:
-                return ('list', [('int', near + d) for d in rng.sample([-2, -1, 0, 1, 2], rng.choice([1, 2, 3]))])
+                return ('list', [('int', ci(near + d)) for d in rng.sample([-2, -1, 0, 1, 2], rng.choice([1, 2, 3]))])
         if isinstance(near, float) and abs(near) < 1e300 and near >= 0:
             if r < 0.5:
                 return ('float', near)
